@@ -105,6 +105,38 @@ def custom_field_family():
     return out
 
 
+def bound_value_family():
+    """deterministic family: initial values that reach the database as bound parameters of the table copy (booleans,
+    strings with quotes and percent signs, negative numbers): the preview must show them as the execution binds them"""
+    out = []
+    base = {'name': 'Alpha', 'table': 'vapp_alpha', 'unique_together': [], 'index_together': [], 'indexes': [],
+            'constraints': [], 'fields': [fld('id', 'AutoField', primary_key=True), fld('a', 'IntegerField', null=True),
+                                          fld('ok', 'BooleanField', null=True)]}
+    for initial in ('true', 'false'):
+        m1 = dict(base, fields=base['fields'] + [fld('flag', 'BooleanField')])
+        out.append({'spec0': {'apps': [{'id': 'vapp', 'models': [base]}]},
+                    'spec1': {'apps': [{'id': 'vapp', 'models': [m1]}]},
+                    'muts': [{'t': 'AddField', 'model': 'Alpha', 'field': 'flag', 'ftype': 'BooleanField',
+                              'initial': initial, 'attrs': []}],
+                    'rows': True, 'family': 'bound-values'})
+    m1 = dict(base, fields=[fld('id', 'AutoField', primary_key=True), fld('a', 'IntegerField', null=True),
+                            fld('ok', 'BooleanField')])
+    out.append({'spec0': {'apps': [{'id': 'vapp', 'models': [base]}]},
+                'spec1': {'apps': [{'id': 'vapp', 'models': [m1]}]},
+                'muts': [{'t': 'ChangeField', 'model': 'Alpha', 'field': 'ok', 'ftype': None, 'initial': 'true',
+                          'attrs': [['null', 'false']]}],
+                'rows': True, 'family': 'bound-values'})
+    m1 = dict(base, fields=base['fields'] + [fld('note', 'CharField', max_length=30), fld('n', 'IntegerField')])
+    out.append({'spec0': {'apps': [{'id': 'vapp', 'models': [base]}]},
+                'spec1': {'apps': [{'id': 'vapp', 'models': [m1]}]},
+                'muts': [{'t': 'AddField', 'model': 'Alpha', 'field': 'note', 'ftype': 'CharField',
+                          'initial': '"it\'s 100% \\"x\\""', 'attrs': [['max_length', '30']]},
+                         {'t': 'AddField', 'model': 'Alpha', 'field': 'n', 'ftype': 'IntegerField', 'initial': '-5',
+                          'attrs': []}],
+                'rows': True, 'family': 'bound-values'})
+    return out
+
+
 def set_order_sensitive(case):
     """a ChangeMeta(unique_together/index_together) that adds or removes at least two entries"""
     old = {}
@@ -181,7 +213,7 @@ def run(ctx):
                 '`evolve --execute`; non-trivial = the preview has at least one statement' % len(seeds))
     flag = ctx.variant.get('together_iteration')
     n = 82 if quick else 600
-    cases = [{'case': c, 'seed': i} for i, c in enumerate(together_family() + index_family() + delete_m2m_family() + custom_field_family() + sql_file_family())]
+    cases = [{'case': c, 'seed': i} for i, c in enumerate(together_family() + index_family() + delete_m2m_family() + custom_field_family() + sql_file_family() + bound_value_family())]
     tries = 0
     while len(cases) < n + 10 and tries < n * 6:
         tries += 1
